@@ -34,7 +34,7 @@ INF = float('inf')
 
 def bounds(tier):
     return {'quick': '3 nodes full (costs {0,1,2}); 4 nodes costs {0,1} goal {3}, costs {1,2} goals {2,3}; full RNG branching (cap 3000 executions/instance); queue family k=6: 720 push orders x 6 x 55-56 goal-cost assignments x 2',
-            'thorough': '+ queue family k=6 complete (720 x 6 x 720 x 2) and k=7 (5040 x 7 x 56-57 x 2) + wide-fan graphs on 10-14 nodes (deterministic order + random tie-breaks) + 4 nodes costs {0,1,2} goal {3} ; 5 nodes out-degree<=2 costs {1} goal {4} with <= 1 back edge'}[tier]
+            'thorough': '+ queue family k=6 complete (720 x 6 x 720 x 2) and k=7 (5040 x 7 x 56-57 x 2) + wide-fan graphs on 10-14 nodes (deterministic order + random tie-breaks) + 4 nodes costs {0,1,2} goal {3}'}[tier]
 
 
 def node_options(n, costs, max_out=2, ordered=False):
